@@ -468,7 +468,10 @@ int parse_directives(AsmContext *asm_context)
     char token[TOKENLEN];
     //int token_type;
 
+    asm_context->ignore_symbols = 1;
     tokens_get(asm_context, token, TOKENLEN);
+    asm_context->ignore_symbols = 0;
+
     if (asm_context->symbols.append(
           token,
           asm_context->address / asm_context->bytes_per_address) != 0)
